@@ -264,6 +264,8 @@ class QuickSampler:
             self.__circuit.U_full,
             self.input_state,
             self.post_select,
+            # Rules of a PostSelection object can be added to in place
+            [r.as_tuple() for r in getattr(self.post_select, "rules", [])],
             self.photon_counting,
             self.__circuit.n_modes,
             self.__circuit.heralds,
